@@ -18,6 +18,13 @@ if [ ! -x .build/goroot/bin/go ] || [ "$(cat .build/goroot/.verif-src 2>/dev/nul
   rm -f "$T"
   sed -e 's/it\.entryOffset = rand()/it.entryOffset = 0/' -e 's/it\.dirOffset = rand()/it.dirOffset = 0/' .build/table.go.orig > "$T"
   if [ "$(grep -c 'Offset = 0' "$T")" != 2 ]; then echo "setup: map iterator patch did not apply" >&2; exit 2; fi
+  # deterministic select: poll ready cases in source order instead of a pseudo-random permutation
+  # (any choice among ready cases is legal Go; this makes executions repeatable, DESIGN 2.1)
+  S=.build/goroot/src/runtime/select.go
+  cp "$S" .build/select.go.orig
+  rm -f "$S"
+  sed -e 's/j := cheaprandn(uint32(norder + 1))/j := uint32(norder)/' .build/select.go.orig > "$S"
+  if [ "$(grep -c 'j := uint32(norder)' "$S")" != 1 ]; then echo "setup: select patch did not apply" >&2; exit 2; fi
   echo "$SRCROOT" > .build/goroot/.verif-src
 fi
 . tools/env.sh
